@@ -158,7 +158,23 @@ pub fn gen_defs(r: &mut Rng) -> Vec<Def> {
         } else {
             let span = r.below(12) as u32;
             let hi = lo.saturating_add(span).min(hi_limit).min(lo | 0xFF);
-            let a = (lo..=hi).map(|_| random_target(r, 0)).collect();
+            let n = (hi - lo + 1) as usize;
+            let a: Vec<Vec<u16>> = match r.below(3) {
+                // arrays producers really write are mostly runs of neighbouring code points: consecutive, consecutive
+                // with the inner entries permuted (same end points as an incrementing range), reversed, or constant
+                0 => {
+                    let base = 0x21 + r.below(0xD700) as u16;
+                    let mut v: Vec<u16> = (0..n as u16).map(|i| base.wrapping_add(i)).collect();
+                    match r.below(4) {
+                        0 if n > 2 => r.shuffle(&mut v[1..n - 1]),
+                        1 => v.reverse(),
+                        2 => v.iter_mut().for_each(|x| *x = base),
+                        _ => {}
+                    }
+                    v.into_iter().map(|u| vec![u]).collect()
+                }
+                _ => (lo..=hi).map(|_| random_target(r, 0)).collect(),
+            };
             defs.push(Def { len, lo, hi, target: Target::Array(a), as_char: false });
         }
     }
